@@ -556,6 +556,8 @@ pub fn conc(a: &Args) {
             for ti in 0..nthreads {
                 let s = sink.clone();
                 js.push(std::thread::spawn(move || {
+                    // really parallel (fresh threads are often placed on one CPU and then take turns)
+                    crate::queue::pin_to(1 + ti);
                     let (mut okn, mut okb, mut ern, mut erb) = (0u64, 0u64, 0u64, 0u64);
                     for i in 0..per {
                         let m = if i % 3 == 0 { "bulk.a:1|c" } else { "bulk.longer.metric.name:123456|g|#t:x" };
